@@ -172,6 +172,9 @@ class MvccSim:
         self.nit = 0
         self.nh = 0
         self.lines = ['cfg cmp=%s mem=%s writers=%d' % (self.cmp, 'mm' if self.mm else 'go', self.nw)]
+        if rng.random() < 0.3:
+            # the application chains its live nodes through Node.link (nitro.NodeList); the model is not concerned
+            self.lines[0] += ' links=1'
         self.focus = focus
 
     def w(self):
